@@ -1,5 +1,45 @@
-Require Import V.Lib.Base V.C05.Model.
+(* C05 - smodels writer and reader are inverses on the smodels-expressible fragment.
+   Model: V.C05.Model (SmodelsOutput, one sm_step per AbstractProgram call) composed with the C07 reader model.
+   PROVED here: exactly the documented cases are refused (c05_refuses); the normal form of a body is a permutation of
+   the body (c05_perm); the leading-'9' probe ambiguity is a refutation witness (c05_probe_refuted).
+   NOT PROVED: c05_roundtrip (sm_write p = Ok t /\ read_smodels ext t = Ok (sm_norm p)) - the composition is covered by the
+   differential correspondence (model = implementation on every generated program, including the bytes written) and by the
+   independent python normaliser only.  The reader half it would rest on is C07's c07_complete. *)
+Require Import V.Lib.Base V.Lib.Calls V.Lib.Dec V.C09.Spec V.Gen.Consts V.Gen.Consts_C07 V.C07.Model V.C05.Model V.C05.Proofs.
+Require Import Permutation.
 Local Open Scope Z_scope.
-Example c05_smoke : run_case [4096; 0; 0] = [0; 1; 0; 1; 1].
-Proof. vm_compute. reflexivity. Qed.
-Print Assumptions c05_smoke.
+
+(* a call is refused (exception, nothing written) exactly in the documented cases; everything else is written *)
+Theorem c05_refuses : forall (s : wstate) (c : call), refused s c = true <-> sm_step s c = WErr.
+Proof. exact refuses_iff. Qed.
+Print Assumptions c05_refuses.
+
+(* negative-first reordering keeps the multiset of literals / (literal, weight) pairs *)
+Theorem c05_perm : forall b : list Z, Permutation (norm_body b) b.
+Proof. exact norm_body_perm. Qed.
+Print Assumptions c05_perm.
+Theorem c05_perm_weighted : forall b : list (Z * Z), Permutation (norm_wbody b) b.
+Proof. exact norm_wbody_perm. Qed.
+Print Assumptions c05_perm_weighted.
+
+(* KNOWN FINDING (judgement call, not repaired): a non-incremental extended program whose first line is an external
+   directive comes back with initProgram(true) - every other call is identical *)
+Definition probe_prog : list call := [CInit false; CBegin; CExternal 3 Value_t_True; CRule 0 [1] []; CEnd].
+Theorem c05_probe_refuted : exists p, hd CBegin p = CInit false /\
+  fst (read_smodels (mkopts true false) (fst (sm_run (w_init true 0) p))) = CInit true :: tl p.
+Proof. exists probe_prog. split; vm_compute; reflexivity. Qed.
+Print Assumptions c05_probe_refuted.
+
+(* non-vacuity / smoke: a program of the fragment with a false atom, a weight rule with weight 0, a minimize statement with a
+   negative weight and a compute statement is written and read back as its normal form *)
+Example c05_ex_roundtrip :
+  let p := [CInit false; CBegin; CRule 0 [] [2; -3; 4]; CWRule 0 [1] 2 [(2, 0); (-3, 5)]; CMin 7 [(1, -2); (-2, 3)];
+            COutput [97; 32; 98] [1]; CAssume [1; -2]; CEnd] in
+  sm_run (w_init false 7) p = (fst (sm_run (w_init false 7) p), true) /\
+  read_smodels (mkopts false false) (fst (sm_run (w_init false 7) p)) =
+    ([CInit false; CBegin; CRule 0 [7] [-3; 2; 4]; CWRule 0 [1] 2 [(-3, 5); (2, 0)]; CMin 0 [(-1, 2); (-2, 3)];
+      COutput [97; 32; 98] [1]; CRule 0 [] [-1]; CRule 0 [] [2]; CRule 0 [] [7]; CEnd], Ok tt).
+Proof. split; vm_compute; reflexivity. Qed.
+Example c05_ex_refused : refused (w_init false 0) (CRule 0 [] [1]) = true /\ refused (w_init false 0) (CExternal 1 0) = true
+  /\ refused (w_init true 0) (CExternal 1 0) = false.
+Proof. repeat split. Qed.
